@@ -114,7 +114,8 @@ TEnd == /\ Ev("EndBlock")
            \/ /\ ~E.vok /\ ~split /\ Check = "C12" /\ Has("Dev_NegativeAssetTransferSplitsMinerValidator") /\ NegDiscarded(E.txs)
               /\ UseDev("Dev_NegativeAssetTransferSplitsMinerValidator") /\ split' = TRUE
            \/ /\ ~E.vok /\ ~split /\ Check = "C12" /\ Has("Dev_RevertedFirstEntrySplitsMinerValidator") /\ GivenUpAssetBox(E.txs)
-              /\ ~NegDiscarded(E.txs) /\ UseDev("Dev_RevertedFirstEntrySplitsMinerValidator") /\ split' = TRUE
+              /\ (Has("Dev_NegativeAssetTransferSplitsMinerValidator") => ~NegDiscarded(E.txs))   \* (that one is repaired: a discarded negative transfer explains nothing any more)
+              /\ UseDev("Dev_RevertedFirstEntrySplitsMinerValidator") /\ split' = TRUE
         /\ Judge(E) /\ cur' = Norm(E.post) /\ UNCHANGED c
 \* Known defect, second face: a negative transferAmount to an account that does not hold the asset yet makes the
 \* processor PANIC while mining (the negative equity cannot be RLP-encoded, the revert then trips over the first-equity
